@@ -262,7 +262,10 @@ static void prop_c03_exec(hz::Ctx &ctx) {
   hz::Rng rng(ctx.seed ^ 0xe3ec);
   auto sps = imm_spellings(64, 'M', rng, ctx.thorough() ? 10000 : 1500, true);
   const int regs[] = {0, 1, 2, 6, 7, 8, 9, 10, 11};
+  // literals with more than 16 hex digits (leading zeros, both signs) are executed under STRICT and NASM (under SMART the digit count selects the form)
+  { size_t n0 = sps.size(); for (size_t i = 0; i < n0; i++) if (sps[i].hex && sps[i].pad == 0 && (i % 3) == 0) { ImmSp p = sps[i]; p.pad = 17 + (int)(i % 4); sps.push_back(p); } }
   for (size_t i = 0; i < sps.size(); i++) for (int mode = 0; mode < 3; mode++) {
+    if (sps[i].pad > 16 && mode == 2) continue;
     int reg = regs[(i + mode) % 9]; int combo = mode + 3 * (int)((i >> 1) & 3);
     if (!ctx.take()) continue;
     char idb[160]; snprintf(idb, sizeof idb, "X|%d|%d|%llx|%d|%d|%d", combo, reg, (unsigned long long)sps[i].v, sps[i].neg, sps[i].hex, sps[i].pad);
